@@ -114,7 +114,9 @@ class Channel(BaseChannel):
 
                 if processed_channel_input in processed_buf:
                     return buf
-            elif output_roughly_contains_input(input_=processed_channel_input, output=buf):
+            elif output_roughly_contains_input(
+                input_=processed_channel_input, output=buf.lower()
+            ):
                 return buf
 
     def _read_until_prompt(self, buf: bytes = b"") -> bytes:
